@@ -136,7 +136,45 @@ def elements_type(s, x):
         ts = [s.types(i) for i in x[2]]
         if all(t is not None for t in ts):
             return frozenset().union(*ts) if ts else frozenset()
+    if is_lit(x) and x[1] == "dict" and not x[2]:
+        return _stored_key_types(s, x)
     return None
+
+
+def _stored_key_types(s, x):
+    """x is a dict display `{}` created in this frame: the types of the keys its iteration yields
+    are those of the keys stored into it so far (item stores on the path and in the bodies of the
+    loops already run); any other way of filling it (update, setdefault, a callee) -> None"""
+    out = set()
+
+    def scan(events, facts):
+        for ev in events:
+            k = ev[0]
+            if k == "loop":
+                for bp in ev[4]:
+                    if not scan(bp[2], facts + [bp[1]]):
+                        return False
+            elif k == "store" and isinstance(ev[2], tuple) and len(ev[2]) == 3 and ev[2][0] == "sub" and ev[2][1] == x:
+                s2 = s.copy()
+                for fs in facts:
+                    for f in fs:
+                        s2.add(f)
+                ts = s2.types(ev[2][2])
+                if ts is None:
+                    return False
+                out.update(ts)
+            elif k == "mutcall" and ev[2] == x:
+                if ev[3] not in ("pop", "clear", "popitem"):
+                    return False
+            elif k in ("call", "inlined", "enter") and any(isinstance(a, tuple) and a == x for a in (ev[3] if len(ev) > 3 and isinstance(ev[3], tuple) else ())):
+                if k == "call" and isinstance(ev[2], str) and ev[2].startswith(("builtin:", "method:", "ext:")):
+                    continue  # builtins that take the dict read it (len, join, sorted, ...)
+                return False
+        return True
+
+    if not scan(s.events, []):
+        return None
+    return frozenset(out)
 
 
 @builtin("isinstance")
@@ -1789,7 +1827,15 @@ def m_public_key(c):
 def m_key_bytes(c):
     ts = c.types(c.recv)
     if ts is None or not all(is_key_type(c.w, t) for t in ts):
-        c.rz("AttributeError", "key serialization on a value that may not be a key", [("nottype", c.recv, key_type_names(c.w, "any"))], pure=False)
+        c.rz("AttributeError", "key serialization on a value that may not be a key of that kind", [("nottype", c.recv, key_type_names(c.w, "pub" if c.callee[7:].startswith("public") else "priv"))], pure=False)
+    else:
+        # public keys have public_bytes(), private keys have private_bytes() - not the other way round
+        own = key_type_names(c.w, "pub" if c.callee[7:].startswith("public") else "priv")
+        if not ts <= own:
+            other = key_type_names(c.w, "priv" if c.callee[7:].startswith("public") else "pub")
+            c.rz("AttributeError", "%s() on a key object of the other kind" % c.callee[7:], [("type", c.recv, frozenset(other))], pure=False)
+            if not (ts & own):
+                return
     if not c.callee.endswith("_raw"):
         vals = list(c.args) + [v for _n, v in c.kwargs]
         if not all(v[0] in ("global", "call") for v in vals):
@@ -2023,6 +2069,18 @@ def x_os_open(c):
     if pt is None or not pt <= {"str", "bytes"}:
         c.rz("TypeError", "os.open() of a non-path value", [("nottype", path, frozenset(["str", "bytes"]))], pure=False)
     c.ret(None, ("type", c.term, frozenset(["int"])), pure=False)
+
+
+@ext("os.fspath")
+def x_fspath(c):
+    """os.fspath(p): p itself when it is a str or bytes, p.__fspath__() for path objects, TypeError otherwise"""
+    path = c.arg(0, "path")
+    pt = c.types(path) if path is not None else None
+    if pt is not None and pt <= {"str", "bytes"}:
+        c.ret(None, ("eq", c.term, path), ("type", c.term, pt))
+        return
+    c.rz("TypeError", "os.fspath() of a value that is not a path", [("nottype", path, frozenset(["str", "bytes"]))])
+    c.ret(None, ("type", c.term, frozenset(["str", "bytes"])))
 
 
 @ext("struct.unpack", "struct.unpack_from")
